@@ -22,16 +22,31 @@ var CollateFuncs = map[string]func(string, string) int{
 		)
 	},
 	"nocase": func(a, b string) int {
-		lc := func(r rune) rune {
-			if r >= 'A' && r <= 'Z' {
-				return rune(strings.ToLower(string(r))[0])
+		// Same as SQLite's nocaseCollatingFunc(): compare the common length
+		// ignoring ASCII case (which stops at a NUL byte), then the lengths.
+		lc := func(c byte) byte {
+			if c >= 'A' && c <= 'Z' {
+				return c + 'a' - 'A'
 			}
-			return r
+			return c
 		}
-		return strings.Compare(
-			strings.Map(lc, a),
-			strings.Map(lc, b),
-		)
+		n := len(a)
+		if len(b) < n {
+			n = len(b)
+		}
+		for i := 0; i < n; i++ {
+			ca, cb := lc(a[i]), lc(b[i])
+			if ca != cb {
+				if ca < cb {
+					return -1
+				}
+				return 1
+			}
+			if ca == 0 {
+				break
+			}
+		}
+		return cmpInt64(int64(len(a)), int64(len(b)))
 	},
 }
 
